@@ -52,6 +52,10 @@ CHECKS = {
    technique="deterministic simulation: seeded assignment histories over the several views of one union buffer (members, nested structures through proxies, folded anonymous fields, nested unions) checked after every step against a byte-array reference model",
    text="Seeded search over (fixed-size union definitions with scalar/array/enum/pointer members, nested and anonymous structs to depth 3, nested unions, packed or aligned, optionally inside a holder struct; initial content by parse/default/keyword construction; histories of 1-12 assignments, dumps and re-parses). Model = one bytearray. After every op each member must observe what a stand-alone parse of its type from the model bytes observes, dumps() must equal the model on every byte that carries data in some member, size and consumed length must match the largest member rounded to alignment. One recorded known finding (union dumped from its largest member only) is recognised structurally and reported as KNOWN-FINDING.",
    note="Trusts: field offsets/alignment from the library's field table (C04), MemberType.dumps for the encoding of an assigned value (C05); interpreted readers only; no floats/wchar/flags/bit-field assignments (NaN payloads, invalid UTF-16, C12, C06); padding of the rewritten member may become zero."),
+ "C18": dict(engine="E-BUILD", cat="exploration", ref="4.10",
+   technique="deterministic simulation: seeded histories of add_field / start_update / commit steps with uses of the intermediate class in between, compared with the one-piece declaration (layout signature incl. generated reader source, and behaviour on inputs)",
+   text="Seeded search over (field sequences from the full generator, optional pointer-to-self, align, compiled; splits into single adds and batches, extra commits, and parse/default/dumps/len/== uses of the intermediate class between steps so that cached sizes, generated methods and compiled readers of intermediate states are live). Three routes must agree: the parser's pre-register/extend/commit path for top-level structs, the one-piece typedef struct, and the add_field history: identical layout signature (size, alignment, dynamic, compiled flag, fields, offsets, generated reader source) and identical behaviour (parse values and sizes, consumed bytes, dumps, default instance, ==, hash, bool, errors on truncated input).",
+   note="Trusts: anonymous type names normalised; instances created from intermediate classes not constrained; route B skipped for self-referential cases."),
 }
 PENDING = {'C05': 'check not built yet in this revision (planned engine, DESIGN 4); not claimed until its check exists', 'C09': 'check not built yet in this revision (planned engine, DESIGN 4); not claimed until its check exists', 'C10': 'check not built yet in this revision (planned engine, DESIGN 4); not claimed until its check exists', 'C11': 'check not built yet in this revision (planned engine, DESIGN 4); not claimed until its check exists', 'C13': 'check not built yet in this revision (planned engine, DESIGN 4); not claimed until its check exists', 'C14': 'check not built yet in this revision (planned engine, DESIGN 4); not claimed until its check exists', 'C15': 'check not built yet in this revision (planned engine, DESIGN 4); not claimed until its check exists', 'C16': 'check not built yet in this revision (planned engine, DESIGN 4); not claimed until its check exists', 'C17': 'check not built yet in this revision (planned engine, DESIGN 4); not claimed until its check exists', 'C18': 'check not built yet in this revision (planned engine, DESIGN 4); not claimed until its check exists'}
 
